@@ -163,8 +163,9 @@ int main(void)
 	}
 	{
 		static const uint32_t w[] = { 0x94000000u, 0x97FFFFFFu, 0x94000001u, 0x96000000u, 0x95FFFFFFu, 0x90000000u, 0x9000001Fu,
-				0xF0FFFFE0u, 0x90FFFFE0u, 0xB0000005u, 0x90400000u, 0x903FFFE0u, 0x90C00000u, 0x90BFFFE0u, 0x10000000u, 0x98000000u };
-		grid("arm64", 6, w, 16, pcs, 5);
+				0xF0FFFFE0u, 0x90FFFFE0u, 0xB0000005u, 0x90400000u, 0x903FFFE0u, 0x90C00000u, 0x90BFFFE0u, 0x10000000u, 0x98000000u,
+				0x90100000u, 0x901FFFE0u, 0x90E00000u, 0x90DFFFE0u, 0xF0200000u, 0xB0D00005u };
+		grid("arm64", 6, w, 22, pcs, 5);
 	}
 	{
 		// little-endian value of the buffer bytes: byte 0 (0x48..0x4B) is the low byte
